@@ -282,7 +282,10 @@ class Geometry(DaeObject):
                 if node.get('semantic') == 'VERTEX' and src == vert_ref:
                     node.set('source', '#%s' % vert_src)
 
-        self.xmlnode.set('id', self.id)
+        if len(self.id) > 0:
+            self.xmlnode.set('id', self.id)
+        elif 'id' in self.xmlnode.attrib:
+            del self.xmlnode.attrib['id']
         if len(self.name) > 0:
             self.xmlnode.set('name', self.name)
         elif 'name' in self.xmlnode.attrib:
